@@ -193,6 +193,23 @@ theorem unrepaired_shifts_slices :
       = { zone := [1, 2], cols := [[3, 12]] } := by
   decide
 
+/-- **the hypothesis the unrepaired code forces**: the variant that strips only `sorted_zones`
+    (`strip = false`, what `facts_zonal.py` reads from a tree with D1) still produces the right table
+    for every raster in which *no zone cell is -inf* -- NaN and +inf sort to the end and are harmless -/
+theorem unrepaired_ok_without_neg_inf (zones : Nat → X κ) (values : Nat → ν) (cells perm : List Nat)
+    (valid : ν → Bool) (nanρ : ρ) (funcs : List (List ν → ρ)) (zoneIds : Option (List κ))
+    (hp : SortsCells zones cells perm) (hf : ∀ f ∈ funcs, PermInv f)
+    (hno : ∀ i ∈ cells, zones i ≠ .ninf) :
+    statsNumpy false zones values cells valid nanρ funcs zoneIds perm
+      = { zone := wantedZones zones cells zoneIds
+          cols := funcs.map (fun f => (wantedZones zones cells zoneIds).map
+                    (zoneStat zones values valid nanρ f cells)) } := by
+  rw [statsNumpy_unrepaired_eq zones values cells perm valid nanρ funcs zoneIds hp.isSorted
+    (fun i hi => hno i (hp.isPerm.subset hi))]
+  have := stats_value zones values cells perm valid nanρ funcs zoneIds hp hf
+  rw [strip_fact] at this
+  exact this
+
 /-! ### non-vacuity -/
 
 /-- a sorting permutation exists for a concrete raster with NaN, -inf and +inf zone cells -/
